@@ -28,6 +28,9 @@ ASSUMPTIONS = ["std::sync::RwLock gives reader/writer exclusion", "the functions
 MUTATORS = ("registry::set_pointer", "registry::ensure_object_root", "registry::ensure_object_parent", "registry::resolve_mut", "registry::Registry::write_state")
 
 
+NONEMPTY_BODY = ("Option::is_none(arg3) is False", "Option::is_some(arg3) is True", "arg3 is Some")
+
+
 def run(facts, R):
     dw = facts.body(REG + "::dispatch_with_ctx")
     s = Sym(dw)
@@ -36,7 +39,14 @@ def run(facts, R):
     def gt(i):
         return ["%s is %s" % (render_n(f["expr"], o), f["val"]) for f in facts_at(dw, s, facts, i)]
     # ---------------- read-path-pure ----------------------------------------------------------------------
-    none_blocks = [x for x in sorted(dw.live_blocks()) if any(is_call(f["expr"], "is_none") and f["val"] is True and render_n(f["expr"][2][0]) == "arg3" for f in facts_at(dw, s, facts, x))]
+    def _none_fact(f):
+        e, v = f["expr"], f["val"]
+        if is_call(e, "is_none") and render_n(e[2][0]) == "arg3":
+            return v is True
+        if is_call(e, "is_some") and render_n(e[2][0]) == "arg3":
+            return v is False
+        return render_n(e) == "arg3" and v == "None"
+    none_blocks = [x for x in sorted(dw.live_blocks()) if any(_none_fact(f) for f in facts_at(dw, s, facts, x))]
     R.floor("read-path-pure", len(none_blocks), 3, "blocks on the empty-body edge")
     bad = []
     for x in none_blocks:
@@ -50,7 +60,7 @@ def run(facts, R):
     for i, t in dw.calls():
         if callee_matches(t["callee"], *MUTATORS):
             g = gt(i)
-            R.check(any(x == "Option::is_none(arg3) is False" for x in g), "read-path-pure", dw.path, "%s only for a non-empty body" % t["callee"]["name"], "%s reachable under %s" % (t["callee"]["name"], g[:3]), t.get("span"))
+            R.check(any(x in NONEMPTY_BODY for x in g), "read-path-pure", dw.path, "%s only for a non-empty body" % t["callee"]["name"], "%s reachable under %s" % (t["callee"]["name"], g[:3]), t.get("span"))
     db = facts.body(REG + "::decode_body")
     ds = Sym(db)
     rows = value_rows(db, ds, facts, 0)
@@ -69,12 +79,12 @@ def run(facts, R):
         pc = path_counts(dw, [ci])
         R.check(pc is not None and pc[1] <= 1, "callable-once", dw.path, "at most once per request", "call count per path %s" % (pc,), ct.get("span"), "max 1")
         g = gt(ci)
-        nonempty = any(x == "Option::is_none(arg3) is False" for x in g)
+        nonempty = any(x in NONEMPTY_BODY for x in g)
         found = any(".functions, (Try>::branch#1(registry::canonical_key(arg2)) as Continue).0) is Some" in x for x in g)
         R.check(nonempty and found, "callable-once", dw.path, "only for a non-empty body at the canonical key",
                 "callable invoked under %s" % [x[-80:] for x in g], ct.get("span"), "body.is_some() and functions.get(canonical_key(pointer)) is Some")
         a = [render_n(s.op(x), o) for x in ct["args"]]
-        R.check(a[1] == "arg4" and a[2] == "Option::Some{0: Option::unwrap(arg3)}" and "get(" in a[0] and ".functions" in a[0], "callable-once", dw.path, "called with the supplied body and context",
+        R.check(a[1] == "arg4" and a[2] in ("Option::Some{0: Option::unwrap(arg3)}", "Option::Some{0: (arg3 as Some).0}", "arg3") and "get(" in a[0] and ".functions" in a[0], "callable-once", dw.path, "called with the supplied body and context",
                 "call args %s" % [x[-60:] for x in a], ct.get("span"), "f.call(ctx, Some(body))")
         # no state guard held at the call
         init = definitely_init(dw)
@@ -104,7 +114,8 @@ def run(facts, R):
         b = facts.body(fn)
         rows = value_rows(b, Sym(b), facts, 0)
         errs = [(g, v) for g, v in rows if v.startswith("Result::Err")]
-        ok = any("InvalidPointer" in v and any("starts_with(arg1, 47) is False" in x for x in g) for g, v in errs)
+        ok = any("InvalidPointer" in v and any(("starts_with(arg1, 47) is False" in x) or ("strip_prefix(arg1, 47) is None" in x) or ("strip_prefix(arg1, 47)) is Break" in x) for x in g)
+                 for g, v in errs)
         R.check(ok, "pointer-error-class", fn, "no leading '/' -> InvalidPointer", "error rows: %s" % [(g[-1:], v[:60]) for g, v in errs], b.span)
         R.check(all("InvalidPointer" in v for g, v in errs), "pointer-error-class", fn, "only InvalidPointer", "error rows: %s" % [v[:60] for g, v in errs], b.span)
     pp = facts.body("registry::parse_pointer")
